@@ -165,6 +165,64 @@ def cyclic_through_lookup(e):
   return out
 
 
+DIRECTED_FORMULAS = [
+  '$R.A', '$R.R.A', '$R.F1', 'list($L.A)', '[x.R.A for x in $L]', 'len(U.lookupRecords(R=$id))',
+  'T.lookupOne(A=$B).B', '[r.id for r in T.lookupRecords(A=$B, order_by="-B")]',
+  '[r.id for r in T.lookupRecords(L=CONTAINS($R))]', 'sum(r.B or 0 for r in U.lookupRecords(R=$R))',
+  'PREVIOUS(rec, order_by="B").id', 'RANK(rec, group_by="A", order_by="B")', 'NEXT(rec, order_by="-A").B',
+  'list(T.lookupRecords(A=$B).L)', 'T.lookupOne(B=$A, order_by=("A", "-id")).R.A', '$R.L.A',
+  'len(T.all)', '[r.B for r in U.lookupRecords(A=$A, B=$B)]', 'U.lookupOne(A=$R.A).id',
+]
+
+
+def directed_history(rng):
+  """Two small tables T, U (A, B ints; R: Ref:T, L: RefList:T; F1 = $A + 1) with 2-3 formula columns drawn from the
+  dependency shapes, then many small edits: data, references (shared targets, dangling ids), rows added/removed,
+  a summary table, a formula change."""
+  def cols():
+    return [{'id': 'A', 'type': 'Int', 'isFormula': False}, {'id': 'B', 'type': 'Int', 'isFormula': False},
+            {'id': 'R', 'type': 'Ref:T', 'isFormula': False}, {'id': 'L', 'type': 'RefList:T', 'isFormula': False},
+            {'id': 'F1', 'type': 'Any', 'isFormula': True, 'formula': '$A + 1'}]
+  hist = [[['AddTable', 'T', cols()]], [['AddTable', 'U', cols()]]]
+  for i in range(rng.randint(2, 3)):
+    hist.append([['AddColumn', rng.choice(['T', 'U']), 'G%d' % i,
+                  {'type': 'Any', 'isFormula': True, 'formula': rng.choice(DIRECTED_FORMULAS)}]])
+  nrows = {'T': 0, 'U': 0}
+  def refval():
+    return rng.choice([0, 1, 1, 2, 2, 3, nrows['T'] + 1])
+  def rec():
+    return {'A': rng.randint(0, 2), 'B': rng.randint(0, 2), 'R': refval(),
+            'L': rng.choice([None, ['L', refval()], ['L', 1, 2], ['L', 2, refval()]])}
+  for t in ('T', 'U'):
+    n = rng.randint(2, 4)
+    rows = [rec() for _ in range(n)]
+    hist.append([['BulkAddRecord', t, [None] * n, {k: [r[k] for r in rows] for k in ('A', 'B', 'R', 'L')}]])
+    nrows[t] = n
+  for _ in range(rng.randint(6, 14)):
+    t = rng.choice(['T', 'U'])
+    k = rng.random()
+    row = rng.randint(1, max(1, nrows[t]))
+    if k < 0.45:
+      c = rng.choice(['A', 'B', 'R', 'L'])
+      hist.append([['UpdateRecord', t, row, {c: rec()[c]}]])
+    elif k < 0.6:
+      r = rec()
+      hist.append([['AddRecord', t, None, r]])
+      nrows[t] += 1
+    elif k < 0.72:
+      hist.append([['RemoveRecord', t, row]])
+    elif k < 0.8:
+      hist.append([['AddRecord', 'T', nrows['T'] + rng.randint(1, 2), {'A': rng.randint(0, 2)}]])
+      nrows['T'] += 2
+    elif k < 0.88:
+      hist.append([['ModifyColumn', t, 'G0', {'formula': rng.choice(DIRECTED_FORMULAS)}]])
+    elif k < 0.94:
+      hist.append([['BulkUpdateRecord', t, [1, 2], {'R': [refval(), refval()], 'A': [rng.randint(0, 2), rng.randint(0, 2)]}]])
+    else:
+      hist.append([['CreateViewSection', 1 if t == 'T' else 2, 0, 'record', [rng.choice([2, 3])] if t == 'T' else [9], None]])
+  return hist
+
+
 CYCLIC_FORMULAS = [
   ('F', 'T.lookupOne(F=$A).id'),
   ('F', 'len(T.lookupRecords(F=$A))'),
